@@ -165,7 +165,10 @@ def main():
         for o in p["ops"]:
             stats["ops_by_kind"][o[0]] = stats["ops_by_kind"].get(o[0], 0) + 1
         r = run_impl(p, getattr(mod, "Machine", None))
-        impl.append({"obs": r["obs"], "exc": r["exc"], "crash": r["crash"]})
+        # (only the outcome of every observation is kept: the observations of thousands of programs
+        # of the identity machine are tens of gigabytes of Python integers)
+        impl.append({"obs": [ob[:1] if ob else ob for ob in r["obs"]] if r["obs"] else r["obs"],
+                     "exc": r["exc"], "crash": r["crash"]})
         for c in r["exc"]:
             stats["exc_classes"][c] = stats["exc_classes"].get(c, 0) + 1
         if r["crash"]:
@@ -315,8 +318,13 @@ def replay(P, mod, path):
     mo = emit.run_models([p["ops"]], instances=("F64", "Xq"), extra=getattr(mod, "EMIT", None),
                          mode=getattr(mod, "MODE", "base"))[0]
     d = first_diff(r["obs"], mo["F64"], p["ops"], getattr(mod, "EMIT", None), getattr(mod, "MODE", "base"))
+    exact = mo["F64"] == mo["Xq"]
+    if d is not None and getattr(mod, "TIE_EXACT_ONLY", False) and not (
+            mod.tie_applicable(p, exact) if hasattr(mod, "tie_applicable") else exact):
+        print("correspondence: differs in rounding only (not compared bit for bit on this program):", jdump(d)[:400])
+        d = None
     try:
-        fails = mod.oracle(p, r, mo["F64"] == mo["Xq"])
+        fails = mod.oracle(p, r, exact)
     except Exception as e:  # noqa: BLE001
         fails = [{"clause": "the oracle evaluates the property on this program",
                   "diff": "oracle raised %s: %s" % (type(e).__name__, str(e)[:300])}]
